@@ -33,12 +33,13 @@ def case(draw, tier="quick"):
     d = draw(st.sampled_from([2, 3]))
     kind = draw(st.sampled_from(kinds(d)))
     return {"d": d, "kind": kind, "v": draw(Z.params()), "m": draw(Z.params(9)), "k": draw(st.integers(-3, 4)),
-            "hist": draw(st.lists(st.integers(0, 2), min_size=1, max_size=6))}
+            "hist": draw(st.lists(st.integers(0, 2), min_size=1, max_size=6)), "mclass": [draw(st.sampled_from(Z.MCLASSES)) for _ in range(3)]}
 
 
 def mats(c):
     n = c["d"] + 1
-    return [Z.int_matrix(c["m"], n, off) for off in (0, 7, 13)]
+    cls = c.get("mclass", ["projective"] * 3)
+    return [Z.class_matrix(c["m"], n, cls[i], off) for i, off in enumerate((0, 7, 13))]
 
 
 def same_kind(ck, x, y, site):
@@ -239,15 +240,11 @@ def run_polytope_obs(c):
 
 
 def nontrivial(c):
-    try:
-        ms = mats(c)
-    except Skip:
-        return False
-    return any((not Z.is_affine(m)) and (not np.array_equal(m, m.T)) for m in ms[:2])
+    return any(m != "isometry" for m in c.get("mclass", ["projective"])[:2])
 
 
 def labels(c):
-    return [f"{c['kind']}{c['d']}"]
+    return [f"{c['kind']}{c['d']}"] + ["matrix:" + m for m in c.get("mclass", [])[:2]]
 
 
 LAWS = [
